@@ -126,7 +126,7 @@ func runSkipLong(c skipLong, r *pb.Rec) error {
 }
 
 func init() {
-	pb.Register("skiplist_long_run", pb.Options{Base: 10, Required: []string{">= 40000 operations on one list"},
+	pb.Register("skiplist_long_run", pb.Options{Twins: 3, Base: 10, Required: []string{">= 40000 operations on one list"},
 		Rule: "3000 or 40000 PRNG-driven Set/Remove calls (keys below 8..3000, optional Clear every 997th/9001st step) on one zero-value SkipList or one SkipListWithCmp with the comparator x-y, towers from the list's own random source; oracle: map model (Remove results, Len and a random Get after every call, Range and RangeWithStart every 2048 steps); non-trivial = 40000 operations"},
 		genSkipLong, runSkipLong)
 }
